@@ -242,9 +242,40 @@ type c02Collector struct {
 	got    []c02Rec
 	clones []*benchfmt.Result
 	snaps  []c02Rec
+	// bare holds the positions of "Unit <unit>" lines without any pair. Such
+	// a line sets nothing and prescribes no record; whether it is "malformed"
+	// is not settled by the statement, so a complaint positioned at one is
+	// neither required nor judged (a benign change that reports these lines
+	// fired here - false alarm corrected, DESIGN.md 9.9b).
+	bare map[string]map[int]bool
+	// taken counts every record delivered (also the ones not judged) and
+	// lastLine is the line of the latest of them.
+	taken    int
+	lastLine int
+}
+
+// noteBare registers the pair-less Unit lines of a text read under the name file.
+func (cl *c02Collector) noteBare(file, text string) {
+	lines := refread.New().Read(file, text, refread.Options{}).BareUnitLines
+	if len(lines) == 0 {
+		return
+	}
+	if cl.bare == nil {
+		cl.bare = map[string]map[int]bool{}
+	}
+	if cl.bare[file] == nil {
+		cl.bare[file] = map[int]bool{}
+	}
+	for _, l := range lines {
+		cl.bare[file][l] = true
+	}
 }
 
 func (cl *c02Collector) take(rec benchfmt.Record) *kit.Fail {
+	cl.taken++
+	if pr, ok := rec.(interface{ Pos() (string, int) }); ok {
+		_, cl.lastLine = pr.Pos()
+	}
 	switch r := rec.(type) {
 	case *benchfmt.Result:
 		s := c02SnapResult(r)
@@ -277,6 +308,10 @@ func (cl *c02Collector) take(rec benchfmt.Record) *kit.Fail {
 	case *benchfmt.SyntaxError:
 		s := c02Rec{kind: refread.KindError}
 		s.file, s.line = r.Pos()
+		if cl.bare[s.file][s.line] {
+			kit.Count("complaints about Unit lines without any pair (not judged)", 1)
+			break
+		}
 		cl.got = append(cl.got, s)
 	default:
 		return kit.Failf("record-kind", "unexpected record type %T", rec)
@@ -359,6 +394,7 @@ func c02CheckText(c c02TextCase) *kit.Fail {
 	name := string(c.Name)
 	rd := benchfmt.NewReader(c02NewInput(text, c.Chunk), name)
 	var cl c02Collector
+	cl.noteBare(name, text)
 	limit := len(text) + 8
 	for n := 0; rd.Scan(); n++ {
 		if n > limit {
@@ -506,6 +542,11 @@ func c02CheckFiles(c c02FilesCase) *kit.Fail {
 
 	fs := &benchfmt.Files{Paths: args, AllowLabels: c.AllowLabels}
 	var cl c02Collector
+	for _, e := range entries {
+		if e.file >= 0 {
+			cl.noteBare(e.path, string(c.Files[e.file].Text))
+		}
+	}
 	limit := total + 8*len(args) + 8
 	for n := 0; fs.Scan(); n++ {
 		if n > limit {
@@ -668,7 +709,8 @@ func c02CheckReset(c c02FilesCase) *kit.Fail {
 			labels[string(kv.K)] = string(kv.V)
 		}
 		rd.Reset(strings.NewReader(text), name, init...)
-		entryStart := len(cl.got)
+		cl.noteBare(name, text)
+		takenStart := cl.taken
 		limit := len(text) + 8
 		n := 0
 		ranOut := false
@@ -697,8 +739,8 @@ func c02CheckReset(c c02FilesCase) *kit.Fail {
 		// line yields is not specified, so the consumed part is taken from the
 		// position of the last record delivered, not from a record count.
 		abandonedAt := 0
-		if !ranOut && p.StopAfter > 0 && len(cl.got) > entryStart {
-			abandonedAt = cl.got[len(cl.got)-1].line
+		if !ranOut && p.StopAfter > 0 && cl.taken > takenStart {
+			abandonedAt = cl.lastLine
 		}
 		// every line-length limit a conforming reader may have (see c02CheckText)
 		var first *kit.Fail
